@@ -237,6 +237,23 @@ PROPS['C08'] = {
     ],
 }
 
+PROPS['C04'] = {
+    'title': 'Boolean operations compute the set-theoretic result',
+    'level': 'proof',
+    'verus': [],
+    'kani_extra': ['--no-memory-safety-checks', '--no-overflow-checks', '--no-assertion-reach-checks'],
+    'kani': [
+        ('geo', 'c04_convert.rs', r'^c04_k_op_type_to_overlay_rule$', 'complete', 'quick'),
+        ('geo', 'c04_convert.rs', r'^c04_k_(ring_to_path|polygon_from_shape|line_string_from_path)', 'bounded', 'quick'),
+    ],
+    'trusted': ['the overlay engine i_overlay is an ASSUMED contract (computes the set operation for implicitly closed paths, outer rings clockwise / holes counter-clockwise)',
+                'glue harnesses use concrete pairwise-distinct coordinates (the glue only copies coordinates) and concrete small ring sizes'],
+    'undecided_clauses': [
+        'point-wise set semantics, area identities, result winding, unary_union fill-rule selection, clip length conservation: all inside or dependent on i_overlay -- NOT decided',
+        'decided: ring -> engine path (incl. repeated closing vertices), engine shape -> Polygon (ring order, closure, reversal), OpType -> OverlayRule',
+    ],
+}
+
 NOT_APPLICABLE = {
     'C16': 'every clause is an identity between compositions of sin/cos/atan2/asin/sqrt/tan/ln in f64 (or calls into geographiclib-rs); Verus leaves float arithmetic uninterpreted and CBMC models libm as nondeterministic, so no contract stronger than "returns an f64" is provable',
     'C09': 'no contract within reach decides it: Verus cannot take compute_rdp / visvalingam (iterator adaptor chains, BinaryHeap, R-tree, closures without specs); Kani/CBMC does not finish symbolic execution of simplify on a 3-vertex line string even with a concrete tolerance (measured: > 900 s; the sqrt inside the distance kernel makes every distance symbolic and the recursion then runs over slices of symbolic length). The attempted contract is kept in contracts/kani/geo/c09_rdp.rs',
